@@ -2829,14 +2829,18 @@ static void struct_members(Token **rest, Token *tok, Type *ty) {
 
   while (!equal(tok, "}")) {
     VarAttr attr = {};
+    bool has_tag = (equal(tok, "struct") || equal(tok, "union")) &&
+                   tok->next->kind == TK_IDENT;
     Type *basety = declspec(&tok, tok, &attr);
     bool first = true;
 
     // Anonymous struct member
     if ((basety->kind == TY_STRUCT || basety->kind == TY_UNION) &&
         consume(&tok, tok, ";")) {
-      // 'struct T;' with an incomplete type only declares the tag.
-      if (basety->size < 0)
+      // Only a specifier without a tag declares an anonymous member
+      // (C11 6.7.2.1p13); 'struct T { ... };' or 'struct T;' inside a
+      // struct declares the tag T and no member.
+      if (has_tag || basety->size < 0)
         continue;
 
       Member *mem = calloc(1, sizeof(Member));
